@@ -451,6 +451,30 @@ pub fn exec_step(w: &mut World, ctx: &mut Ctx, st: &Step) -> StepResult {
                 }
             }
         }
+        "Decorate" => {
+            // give one existing assertion an assertion of its own (an assertion carrying assertions)
+            let (d, p, o) = (doc!(a0), doc!(a2), doc!(a3));
+            let asserts = w.docs[d].m.assertions();
+            if asserts.is_empty() || w.docs[d].env.assertions().len() != asserts.len() {
+                return StepResult::Skipped;
+            }
+            let i = (a1 % asserts.len() as u64) as usize;
+            let old_env = w.docs[d].env.assertions()[i].clone();
+            let decorated_env = lib!("add_assertion", old_env.add_assertion(w.docs[p].env.clone(), w.docs[o].env.clone()));
+            let r = lib!("replace_assertion", w.docs[d].env.replace_assertion(old_env, decorated_env));
+            let am = M::assertion(w.docs[p].m.clone(), w.docs[o].m.clone());
+            let decorated_m = asserts[i].add_assertion_m(&am);
+            let ind = w.docs[d].independent && w.docs[p].independent && w.docs[o].independent;
+            check_immutable(w, ctx, &[d, p, o], "decorate");
+            match r {
+                Ok(env) => {
+                    ctx.probe("assertion-decorated");
+                    let m = w.docs[d].m.remove_assertion_m(&asserts[i].digest()).add_assertion_m(&decorated_m);
+                    push_doc(w, ctx, env, if ind { Some(m) } else { None }, "Decorate")
+                }
+                Err(_) => StepResult::Refused,
+            }
+        }
         "ReplaceSubject" => {
             let (d, s) = (doc!(a0), doc!(a1));
             let env = lib!("replace_subject", w.docs[d].env.replace_subject(w.docs[s].env.clone()));
@@ -885,6 +909,9 @@ pub fn generate(property: &str, r: &mut SimRng, seed: u64) -> Scenario {
         if on(r, 3, 4) {
             w.push(("Remove", 3));
             w.push(("AddRemove", if property == "C07" { 4 } else { 1 }));
+        }
+        if on(r, 2, 3) {
+            w.push(("Decorate", 2));
         }
         if on(r, 2, 3) {
             w.push(("Replace", 2));
